@@ -722,7 +722,7 @@ fn msg_cases(run: &mut Run, c: &Codec, r: &mut Rng, th: bool) {
         run.msg(&c.proto, short_kind(&c.kind), true, None, &b, &c.name);
     }
     // hostile: the right id, then garbage; single-byte corruptions of the base message
-    let nrand = if th { 40 } else { 4 };
+    let nrand = if th { 200 } else { 4 };
     for _ in 0..nrand {
         let mut b = id_prefix(c);
         let n = r.below(2 * base_bytes.len() as u64 + 8) as usize;
@@ -739,7 +739,7 @@ fn msg_cases(run: &mut Run, c: &Codec, r: &mut Rng, th: bool) {
     }
     // thorough: random combinations of member choices
     if th {
-        for _ in 0..60 {
+        for _ in 0..400 {
             let parts: Vec<Vec<u8>> = all.iter().map(|cs| r.pick(cs).bytes.clone()).collect();
             let mut b = assemble(c, &parts);
             if r.chance(1, 4) { let k = r.below(b.len() as u64 + 1) as usize; b.truncate(k); }
@@ -852,7 +852,7 @@ fn obj_cases(o: &mut Out, c: &Codec, r: &mut Rng, th: bool) {
     let mut more = base.clone();
     more.push(r.i32_any());
     obj_run(o, &c.proto, &c.name, &c.id, &c.ms, &more, None, false);
-    for _ in 0..(if th { 200 } else { 6 }) {
+    for _ in 0..(if th { 1500 } else { 6 }) {
         let n = if r.chance(3, 4) { base.len() } else { r.below(base.len() as u64 + 3) as usize };
         let w: Vec<i32> = (0..n).map(|i| if i < vals.len() && r.chance(2, 3) { r.pick(&vals[i]).0 } else { r.i32_edgy() }).collect();
         obj_run(o, &c.proto, &c.name, &c.id, &c.ms, &w, None, false);
@@ -862,6 +862,125 @@ fn obj_cases(o: &mut Out, c: &Codec, r: &mut Rng, th: bool) {
         let got = real_size(&c.proto, *n as u16);
         let cid = o.case(&format!("size\t{}\t{}", c.proto, n), &match got { Some(s) => format!("some {}", s), None => "none".into() }, "size");
         o.check(got == Some(sz) && sz as usize == c.ms.len(), "-", &cid, || format!("{} obj_size({}) = {:?}, the description has {} words", c.proto, n, got, sz));
+    }
+}
+
+// ------------------------------------------------------------------ encode, driven directly (hand-built values)
+
+macro_rules! direct {
+    ($o:expr, $proto:expr, $kind:expr, $id:expr, $cap:expr, $vals:expr, $msg:expr) => {{
+        let cap: usize = $cap;
+        let mut buf = vec![0u8; cap];
+        let r = guard(|| with_packer(&mut buf[..], |p| $msg.encode(p).map(|b| b.to_vec())));
+        let txt: String = match r {
+            Ok(Ok(b)) => hex(&b),
+            Ok(Err(_)) => "cap".into(),
+            Err(_) => "panic".into(),
+        };
+        let sig = format!("enc:{}:{}:{}", $proto, $id, if txt == "cap" || txt == "panic" { txt.as_str() } else { "bytes" });
+        $o.case(&format!("enc\t{}\t{}\t{}\t{}\t{}", $proto, $kind, $id, cap, $vals), &txt, &sig);
+    }};
+}
+
+/// values that decode can never produce (a failing assert!, None, a NUL in a string) and the order of
+/// CapacityError vs. panic: the generated encode functions called on hand-built structs
+fn direct_encodes(o: &mut Out) {
+    use libtw2_common::digest::Sha256;
+    {
+        use libtw2_gamenet_teeworlds_0_6::msg::{connless, game, system, Connless, Game, System};
+        use libtw2_gamenet_teeworlds_0_6::snap_obj::PlayerInput;
+        for (killer, weapon) in [(15, 5), (16, 5), (-1, 0), (0, 6), (0, -4), (0, -3)] {
+            let m = game::SvKillMsg { killer, victim: 3, weapon, mode_special: -7 };
+            for cap in [64usize, 2] {
+                direct!(o, "tw06", "game", "o4", cap, format!("i{} i3 i{} i-7", killer, weapon), Game::from(m));
+            }
+        }
+        for (team, cid, msg) in [(true, -1, &b"hi"[..]), (false, 15, b""), (false, 16, b"x"), (true, 3, b"a\0b"), (false, 0, b"\x01\xff")] {
+            let m = game::SvChat { team, client_id: cid, message: msg };
+            for cap in [64usize, 3] {
+                direct!(o, "tw06", "game", "o3", cap, format!("b{} i{} s{}", team as u8, cid, hex(msg)), Game::from(m));
+            }
+        }
+        for (name, map) in [(&b"srv"[..], &b"dm1"[..]), (b"sr\x1fv", b"dm1"), (b"srv", b"\n"), (b"s\0v", b"dm1")] {
+            let m = connless::Info {
+                token: -5, version: b"0.6", name, map, game_type: b"DM", flags: 1, num_players: 2, max_players: 16,
+                num_clients: i32::MIN, max_clients: i32::MAX,
+                clients: libtw2_gamenet_teeworlds_0_6::msg::ClientsData::from_bytes(b"n\0c\0-1\00\01\0"),
+            };
+            for cap in [200usize, 20] {
+                direct!(o, "tw06", "conn", "cffffffff696e6633", cap,
+                        format!("i-5 s{} s{} s{} s{} i1 i2 i16 i{} i{} s{}", hex(b"0.6"), hex(name), hex(map), hex(b"DM"), i32::MIN, i32::MAX, hex(b"n\0c\0-1\00\01\0")),
+                        Connless::from(m));
+            }
+        }
+        for (a, b) in [(Some(1), Some(0)), (None, Some(0)), (Some(1), None), (None, None)] {
+            let m = system::RconAuthStatus { auth_level: a, receive_commands: b };
+            let v = |x: Option<i32>| x.map(|y| format!("i{}", y)).unwrap_or("n".into());
+            for cap in [16usize, 1] {
+                direct!(o, "tw06", "sys", "o10", cap, format!("{} {}", v(a), v(b)), System::from(m));
+            }
+        }
+        for (pw, cap) in [(Some(&b"pw"[..]), 32usize), (None, 32), (Some(&b"p\0"[..]), 32), (Some(&b"pw"[..]), 5)] {
+            let m = system::Info { version: b"0.6 x", password: pw };
+            direct!(o, "tw06", "sys", "o1", cap,
+                    format!("s{} {}", hex(b"0.6 x"), pw.map(|p| format!("s{}", hex(p))).unwrap_or("n".into())), System::from(m));
+        }
+        // the nested object's asserts run when it is written: CapacityError wins if the buffer ends before it
+        for (dir, ww, cap) in [(1, 0, 64usize), (2, 0, 64), (2, 0, 3), (2, 0, 4), (1, 7, 64), (-1, 6, 12), (-1, 6, 13), (-2, 9, 2)] {
+            let input = PlayerInput { direction: dir, target_x: 100, target_y: -100, jump: 1, fire: 7, hook: 0, player_flags: 3,
+                                      wanted_weapon: ww, next_weapon: 0, prev_weapon: 0 };
+            let m = system::Input { ack_snapshot: 1, intended_tick: 2, input_size: 40, input };
+            direct!(o, "tw06", "sys", "o16", cap, format!("i1 i2 i40 i{} i100 i-100 i1 i7 i0 i3 i{} i0 i0 u", dir, ww), System::from(m));
+        }
+        let m = connless::Count { count: 0xabcd };
+        direct!(o, "tw06", "conn", "cffffffff73697a32", 16, "i43981", Connless::from(m));
+        direct!(o, "tw06", "conn", "cffffffff73697a32", 9, "i43981", Connless::from(m));
+    }
+    {
+        use libtw2_gamenet_teeworlds_0_7::enums::Team;
+        use libtw2_gamenet_teeworlds_0_7::msg::{game, system, Game, System};
+        for (sl, mc) in [(0, 0), (-1, 0), (5, -1), (i32::MAX, i32::MAX)] {
+            let m = game::SvGameInfo { game_flags: -1, score_limit: sl, time_limit: 0, match_num: 1, match_current: mc };
+            direct!(o, "tw07", "game", "o19", 64, format!("i-1 i{} i0 i1 i{}", sl, mc), Game::from(m));
+        }
+        for (cid, time) in [(63, -1), (64, 0), (0, -2), (0, i32::MAX)] {
+            let m = game::SvRaceFinish { client_id: cid, time, diff: -3, record_personal: true, record_server: false };
+            direct!(o, "tw07", "game", "o35", 64, format!("i{} i{} i-3 b1 b0", cid, time), Game::from(m));
+        }
+        for (team, part3, cap) in [(Team::Spectators, &b"standard"[..], 200usize), (Team::Blue, b"bad\x07", 200), (Team::Red, b"", 10)] {
+            let parts: [&[u8]; 6] = [b"a", b"b", b"c", part3, b"e", b""];
+            let m = game::SvClientInfo { client_id: 5, local: true, team, name: b"nameless tee", clan: b"", country: -1,
+                                         skin_part_names: parts, use_custom_colors: [true, false, true, false, true, false],
+                                         skin_part_colors: [1, -2, 3, -4, 5, i32::MIN], silent: false };
+            let ps: Vec<String> = parts.iter().map(|p| format!("s{}", hex(p))).collect();
+            direct!(o, "tw07", "game", "o18", cap,
+                    format!("i5 b1 i{} s{} s- i-1 {} b1 b0 b1 b0 b1 b0 i1 i-2 i3 i-4 i5 i{} b0", team.to_i32(), hex(b"nameless tee"), ps.join(" "), i32::MIN),
+                    Game::from(m));
+        }
+        // the nested object's asserts run when it is written: CapacityError wins if the buffer ends before it
+        for (dir, ww, cap) in [(1, 0, 64usize), (2, 0, 64), (2, 0, 3), (2, 0, 4), (2, 0, 5), (1, 7, 64), (1, 7, 4), (-1, 6, 13), (-1, 6, 14), (-2, 9, 2)] {
+            let input = libtw2_gamenet_teeworlds_0_7::snap_obj::PlayerInput {
+                direction: dir, target_x: 100, target_y: -100, jump: true, fire: 7, hook: false, player_flags: 3,
+                wanted_weapon: ww, next_weapon: 0, prev_weapon: 0 };
+            let m = system::Input { ack_snapshot: 1, intended_tick: 2, input_size: 40, input };
+            direct!(o, "tw07", "sys", "o20", cap, format!("i1 i2 i40 i{} i100 i-100 b1 i7 b0 i3 i{} i0 i0 u", dir, ww), System::from(m));
+        }
+        let sha = Sha256([0xa5; 32]);
+        for cap in [100usize, 40] {
+            let m = system::MapChange { name: b"ctf1", crc: -1, size: 1 << 20, num_response_chunks_per_request: 8, chunk_size: 1384, sha256: sha };
+            direct!(o, "tw07", "sys", "o2", cap, format!("s{} i-1 i{} i8 i1384 s{}", hex(b"ctf1"), 1 << 20, hex(&sha.0)), System::from(m));
+        }
+    }
+    {
+        use libtw2_gamenet_ddnet::msg::{system, System};
+        let u = uuid::Uuid::from_bytes([1, 2, 3, 4, 5, 6, 7, 8, 9, 10, 11, 12, 13, 14, 15, 16]);
+        for cap in [64usize, 17, 20] {
+            let m = system::WhatIs { uuid: u };
+            direct!(o, "ddnet", "sys", "u245e50979fe039d6bf7d9a29e1691e4c", cap, format!("s{}", hex(u.as_bytes())), System::from(m));
+        }
+        let m = system::MapDetails { name: b"Kobra 4", sha256: Sha256([7; 32]), crc: i32::MIN };
+        direct!(o, "ddnet", "sys", "uf9117b3c80393416_9fc0aef2bcb75c03".replace('_', ""), 128,
+                format!("s{} s{} i{}", hex(b"Kobra 4"), hex(&[7u8; 32]), i32::MIN), System::from(m));
     }
 }
 
@@ -878,6 +997,10 @@ fn main() {
         if let Some(c) = tables.iter().find(|c| c.proto == "tw07" && c.name == "obj_player_input") {
             obj_run(&mut o, "tw07", &c.name, &c.id, &c.ms, &[1, 10, -10, 1, 7, 0, 3, 2, 0, 0], Some(true), true);
         }
+    }
+
+    if only.is_none() {
+        direct_encodes(&mut o);
     }
 
     let mut ncodec = 0;
@@ -923,7 +1046,7 @@ fn main() {
                 c.extend(r.bytes(k));
                 run.msg(proto, "conn", false, None, &c, "dispatch");
             }
-            for _ in 0..(if th { 20000 } else { 1500 }) {
+            for _ in 0..(if th { 120000 } else { 1500 }) {
                 let n = r.below(48) as usize;
                 let b: Vec<u8> = (0..n).map(|_| if r.chance(1, 3) { *r.pick(&[0u8, 1, 2, 3, 0x40, 0x7f, 0x80, 0xff]) } else { r.byte() }).collect();
                 let kind = *r.pick(&["sys", "game", "conn"]);
